@@ -74,6 +74,7 @@ def check(ctx: Ctx, rep: Report):
     r4(ctx, rep)
     r5(ctx, rep)
     r6(ctx, rep)
+    r6_forcing(ctx, rep)
     r7(ctx, rep)
     rep.rule("C19.R8", "valid arguments are accepted: a path of a setter that ends without writing (ValueError, silent return) is infeasible for arguments inside the documented domain", 5)
     r8(ctx, rep)
@@ -116,6 +117,9 @@ def r8(ctx: Ctx, rep: Report):
             if modes is not None:
                 in_branch = any(ev.kind == "test" and isinstance(ev.node, ast.Compare) and isinstance(ev.node.ops[0], ast.In) and ev.data is True
                                 and all(m in norm(ev.node) for m in modes) for ev in p.events)
+                if not in_branch:
+                    sel = mode_of_path(ctx, p, fn.params[1])          # (the same selection written as == ... or == ...)
+                    in_branch = bool(sel) and sel <= set(modes)
                 if not in_branch:
                     continue
             n += 1
@@ -169,6 +173,42 @@ def r7(ctx: Ctx, rep: Report):
         rep.check(bad is None, "C19.R7", "fresh-read:%s" % famname, fn.loc(), "%s.read_setting sends a request on each of its %d returning paths" % (famname, n),
                   bad="%s.read_setting can return a value without asking the inverter [path %s]: a getter called after a setter reports the value from before the change" % (
                       famname, bad.describe(8) if bad else ""))
+
+
+def r6_forcing(ctx: Ctx, rep: Report):
+    """What the forcing call does: Schedule.set_schedule_type(ScheduleType.ECO_MODE, is745) leaves an eco type on the
+    group whatever type it held before (folded for every member of ScheduleType x is745)."""
+    from ..constfold import fold_function, FoldRaises
+    prog = ctx.prog
+    sch, st = prog.cls("Schedule"), prog.cls("ScheduleType")
+    m = sch.methods.get("set_schedule_type")
+    if m is None or len(m.params) != 3:
+        raise AnalysisError("Schedule.set_schedule_type(schedule_type, is745) not found")
+    members = prog.enum_members(st)
+    eco = {members[k] for k in ("ECO_MODE", "ECO_MODE_745") if k in members}
+    bad = None
+    n = 0
+    for prior_name, prior in sorted(members.items()):
+        for is745 in (False, True):
+            class _Group:
+                _fold_mutable = True
+            g = _Group()
+            g.schedule_type = prior
+            try:
+                fold_function(prog, m, args={m.params[0]: g, m.params[1]: members["ECO_MODE"], m.params[2]: is745})
+            except FoldRaises as ex:
+                if bad is None:
+                    bad = (prior_name, is745, "raises (%s)" % ex)
+                continue
+            except NotConst as ex:
+                raise AnalysisError("Schedule.set_schedule_type cannot be folded: %s" % ex)
+            n += 1
+            if g.schedule_type not in eco and bad is None:
+                bad = (prior_name, is745, "leaves the type %s" % getattr(g.schedule_type, "name", g.schedule_type))
+    rep.check(bad is None, "C19.R6", "forcing:Schedule.set_schedule_type", m.loc(),
+              "set_schedule_type(ECO_MODE, is745) leaves ECO_MODE / ECO_MODE_745 on the group for every prior type (%d cases folded)" % n,
+              bad="Schedule.set_schedule_type(ScheduleType.ECO_MODE, is745=%s) on a group of type %s %s: the eco group is then encoded with that type's on_off byte and power scaling and does not read back as the mode that was set" % (
+                  bad[1] if bad else "", bad[0] if bad else "", bad[2] if bad else ""))
 
 
 def r6(ctx: Ctx, rep: Report):
@@ -240,7 +280,18 @@ def _writes(p: Path, rp: Optional[Replay] = None) -> List[Tuple[str, ast.expr, a
                 sid = a0.value
             elif rp is not None:
                 try:
-                    sid = _const_of(rp.sym_at(i).lin(a0))
+                    if isinstance(a0, ast.JoinedStr):
+                        # f'eco_mode_{group}_switch' with the loop variable bound on this path
+                        sid = ""
+                        for part in a0.values:
+                            if isinstance(part, ast.Constant):
+                                sid += str(part.value)
+                            elif isinstance(part, ast.FormattedValue) and part.format_spec is None and part.conversion == -1:
+                                sid += str(_const_of(rp.sym_at(i).lin(part.value)))
+                            else:
+                                raise NotConst("format spec")
+                    else:
+                        sid = _const_of(rp.sym_at(i).lin(a0))
                 except NotConst:
                     continue
             else:
